@@ -56,6 +56,10 @@ fn dump_dir(vm: &Vm, dir: RawDirectory, path: &str, depth: usize, out: &mut BTre
         }
         let p = format!("{}/{}", path, refat::name_to_string(&le.name));
         let is_dir = le.attr & 0x10 != 0;
+        if out.len() >= 3000 {
+            // (a medium that exposes garbage as directories describes millions of pseudo-entries)
+            return Err("the tree listed by the library has more than 3000 entries".into());
+        }
         if is_dir {
             out.insert(p.clone(), Seen { ent: le, is_dir, data: None });
             if depth < 5 {
@@ -119,8 +123,8 @@ fn list_dir_rec(vm: &Vm, dir: RawDirectory, path: &str, depth: usize, count: &mu
         .map_err(|e| format!("iterate_dir({}): {:?}", path, map_err(&e)))?;
     for (le, sfn) in ents {
         *count += 1;
-        if *count > 20000 {
-            return Err("listing does not terminate (more than 20000 entries)".into());
+        if *count > 5000 {
+            return Err("listing does not terminate (more than 5000 entries)".into());
         }
         if le.attr & 0x08 != 0 || &le.name == b".          " || &le.name == b"..         " {
             continue;
